@@ -812,3 +812,141 @@ Proof.
   specialize (Hr Hw). apply wf_doc_b_ok in Hw. apply types_dims_fit_b_ok in Hdm.
   apply (C04_absent_message_convention H big_other td0 d Hr Hw Hdm eq_refl Hprim).
 Qed.
+
+(* ======================================================================================================
+   Wave 6: the ABI clause without the guard "sts holds only what the primary struct reaches", and the
+   necessity of the "no valid atomic name is declared" guard as a statement.  Proofs in Eip712/Wave6Abi.v.
+   ====================================================================================================== *)
+From FFS Require Import Eip712.Wave6Abi.
+
+(* 6'. Theorem 6 for ANY well-formed hand-written type set [sts] that declares the structs the component
+       tree describes — and whatever else, reachable from the primary struct or not.  (6 required every
+       struct of sts to be reachable from the primary one, because the derived set holds only those.)
+       The derived set [ts] holds nothing but renderings of structs of sts, holds every struct the
+       primary one reaches, and hashStruct under ts = hashStruct under any Go type set [hand] that
+       renders sts = the specification's hashStruct under the WHOLE of sts. *)
+Theorem C04_abi_typeset_equiv_any :
+  forall (H : bytes -> bytes) (big_other : bytes -> option Z) (re : bytes -> option bytes)
+         (sts : types) (tc : atc) (primary : bytes) (hand : typeset) (g : gval) (v : value),
+    wf_types sts -> types_dims_fit sts ->
+    describes re sts tc (Struct primary) ->
+    repr_types hand sts ->
+    repr big_other sts (Struct primary) g v -> well_typed sts (Struct primary) v = true ->
+    exists ts, ABItoTypedDataV4 re tc = Ok (primary, ts) /\
+      (forall n t, tlookup n ts = Some t -> exists def, assoc n sts = Some def /\ t = render_def def) /\
+      (forall n, reachable sts primary n -> In n (keys ts)) /\
+      HashStruct H big_other primary g ts = Ok (Spec.hashStruct H sts primary v) /\
+      HashStruct H big_other primary g hand = Ok (Spec.hashStruct H sts primary v).
+Proof. exact abi_typeset_equiv_any. Qed.
+Print Assumptions C04_abi_typeset_equiv_any.
+
+(* 11'. Theorem 11 likewise: the whole-document digest, for any well-formed sts without a struct named
+        EIP712Domain. *)
+Theorem C04_abi_document_digest_any :
+  forall (H : bytes -> bytes) (big_other : bytes -> option Z) (re : bytes -> option bytes)
+         (sts : types) (tc : atc) (primary : bytes) (hand : typeset)
+         (dom msg : option gmap) (v : value),
+    wf_types sts -> types_dims_fit sts ->
+    describes re sts tc (Struct primary) ->
+    ~ In domain_name (keys sts) ->
+    repr_types hand sts -> tlookup domain_name hand = None ->
+    let d := {| d_types := with_empty_domain sts; d_primary := primary; d_domain := VStruct []; d_message := v |} in
+    repr big_other (with_empty_domain sts) (Struct primary) (match msg with Some m => GMap m | None => GNil end) v ->
+    well_typed (with_empty_domain sts) (Struct primary) v = true ->
+    exists ts, ABItoTypedDataV4 re tc = Ok (primary, ts) /\ tlookup domain_name ts = None /\
+      wf_doc d /\
+      EncodeTypedDataV4 H big_other (Some (mkTD (Some ts) primary dom msg)) = Ok (digest H d) /\
+      EncodeTypedDataV4 H big_other (Some (mkTD (Some hand) primary dom msg)) = Ok (digest H d).
+Proof. exact abi_document_digest_any. Qed.
+Print Assumptions C04_abi_document_digest_any.
+
+(* non-vacuity of 6' and 11': the hand-written set of the ABI example with one more struct,
+   Audit { Mail mail; uint64[2] at; }, which refers to Mail and which Mail does not reach — the guard of
+   6 / 11 FAILS for it, the derived set does not hold it, and the hashes agree all the same *)
+Definition ex_hand_plus : typeset :=
+  ex_hand ++ [(bs "Audit", Some [ex_member (bs "mail") (bs "Mail"); ex_member (bs "at") (bs "uint64[2]")])].
+Definition ex_sts_plus : types :=
+  ex_sts ++ [(bs "Audit", [ {| sm_name := bs "mail"; sm_ty := Struct (bs "Mail") |};
+                            {| sm_name := bs "at"; sm_ty := Arr (Atomic (AUint 64)) (Some 2%N) |} ])].
+
+Example C04_nonvacuous_abi_any :
+  forall (H : bytes -> bytes) (big_other : bytes -> option Z),
+  parse_types ex_hand_plus = Some ex_sts_plus /\
+  ~ (forall n, In n (keys ex_sts_plus) -> reachable ex_sts_plus (bs "Mail") n) /\
+  exists v ts,
+    ABItoTypedDataV4 ex_re ex_tc = Ok (bs "Mail", ts) /\ tlookup (bs "Audit") ts = None /\
+    HashStruct H big_other (bs "Mail") ex_msg ts = Ok (Spec.hashStruct H ex_sts_plus (bs "Mail") v) /\
+    HashStruct H big_other (bs "Mail") ex_msg ex_hand_plus = Ok (Spec.hashStruct H ex_sts_plus (bs "Mail") v) /\
+    let d := {| d_types := with_empty_domain ex_sts_plus; d_primary := bs "Mail"; d_domain := VStruct []; d_message := v |} in
+    let m := match ex_msg with GMap m => Some m | _ => None end in
+    EncodeTypedDataV4 H big_other (Some (mkTD (Some ts) (bs "Mail") None m)) = Ok (digest H d) /\
+    EncodeTypedDataV4 H big_other (Some (mkTD (Some ex_hand_plus) (bs "Mail") None m)) = Ok (digest H d).
+Proof.
+  intros H big_other.
+  assert (Es : parse_types ex_hand_plus = Some ex_sts_plus) by (vm_compute; reflexivity).
+  assert (Hwb : wf_types_b ex_sts_plus = true) by (vm_compute; reflexivity).
+  assert (Hdb : types_dims_fit_b ex_sts_plus = true) by (vm_compute; reflexivity).
+  pose proof (wf_types_b_ok _ Hwb) as Hwf. apply types_dims_fit_b_ok in Hdb.
+  split; [exact Es|]. split.
+  { intros Hall. assert (Hin : In (bs "Audit") (keys ex_sts_plus)) by (vm_compute; auto).
+    specialize (Hall _ Hin).
+    assert (Hm : In (bs "Mail") (keys ex_sts_plus)) by (vm_compute; auto).
+    destruct (C04_spec_deps_are_reachable_sorted ex_sts_plus (bs "Mail") Hwf Hm) as (Hd & _).
+    assert (Hx : In (bs "Audit") (deps ex_sts_plus (bs "Mail"))) by (apply Hd; split; [exact Hall|discriminate]).
+    vm_compute in Hx. destruct Hx as [E|[]]. discriminate E. }
+  assert (Hv : exists v, parse_val big_other ex_sts_plus 10 (Struct (bs "Mail")) ex_msg = Some v /\
+                         well_typed ex_sts_plus (Struct (bs "Mail")) v = true /\
+                         parse_val big_other (with_empty_domain ex_sts_plus) 10 (Struct (bs "Mail")) ex_msg = Some v /\
+                         well_typed (with_empty_domain ex_sts_plus) (Struct (bs "Mail")) v = true).
+  { eexists. split; [vm_compute; reflexivity|]. split; [vm_compute; reflexivity|]. split; vm_compute; reflexivity. }
+  destruct Hv as (v & Ev & Ht & Ev2 & Ht2).
+  assert (Hd : describes ex_re ex_sts_plus ex_tc (Struct (bs "Mail"))).
+  { vm_compute. split; [reflexivity|]. eexists. split; [reflexivity|].
+    repeat split; try reflexivity; eexists; (split; [reflexivity|]); repeat split; reflexivity. }
+  assert (Hnd : ~ In domain_name (keys ex_sts_plus)) by (intros [E|[E|[E|[]]]]; discriminate E).
+  destruct (C04_abi_typeset_equiv_any H big_other ex_re ex_sts_plus ex_tc (bs "Mail") ex_hand_plus ex_msg v Hwf Hdb Hd
+              (parse_types_repr _ _ Es Hwf) (parse_val_ok _ _ _ _ _ _ Ev) Ht) as (ts & E1 & _ & _ & E2 & E3).
+  destruct (C04_abi_document_digest_any H big_other ex_re ex_sts_plus ex_tc (bs "Mail") ex_hand_plus
+              None (match ex_msg with GMap m => Some m | _ => None end) v
+              Hwf Hdb Hd Hnd (parse_types_repr _ _ Es Hwf) eq_refl
+              (parse_val_ok _ _ _ _ _ _ Ev2) Ht2) as (ts' & E1' & _ & _ & E4 & E5).
+  rewrite E1 in E1'. injection E1' as <-.
+  exists v, ts. split; [exact E1|]. split.
+  { revert E1. vm_compute. intros Hq. injection Hq as <-. reflexivity. }
+  split; [exact E2|]. split; [exact E3|]. cbv zeta. split; [exact E4|exact E5].
+Qed.
+
+(* 1b. The guard of theorem 1 "the Go type map declares no entry under the name of a valid atomic type"
+       (part of [repr_types]) is necessary, not a proof artefact: a type-map entry named uint256 shadows
+       the atomic type.  The document  types {T: [uint256 x], uint256: [bool b]}, message {x: 1}  and the
+       same document without the entry uint256 (which is well formed and hashed per theorem 1) get
+       DIFFERENT results for every hash function: the second a digest, the first a refusal (the value 1
+       is not an object of the "struct" uint256). *)
+Definition shadow_td (shadowed : bool) : typed_data :=
+  mkTD (Some ((bs "T", Some [ex_member (bs "x") (bs "uint256")]) ::
+              (if shadowed then [(bs "uint256", Some [ex_member (bs "b") (bs "bool")])] else [])))
+       (bs "T") None (Some [(bs "x", GNumber (bs "1"))]).
+
+Theorem C04_atomic_name_guard_necessary :
+  forall (H : bytes -> bytes) (big_other : bytes -> option Z),
+    (exists d, parse_doc big_other (shadow_td false) = Some d /\ well_formed_b d = true /\
+               EncodeTypedDataV4 H big_other (Some (shadow_td false)) = Ok (digest H d)) /\
+    (exists e, EncodeTypedDataV4 H big_other (Some (shadow_td true)) = Err e) /\
+    ~ (exists a, wf_atomic a = true /\ tlookup (atomic_name a) (with_domain_type (td_types (shadow_td false))) <> None) /\
+    tlookup (atomic_name (AUint 256)) (with_domain_type (td_types (shadow_td true))) <> None.
+Proof.
+  intros H big_other. split; [|split; [|split]].
+  - assert (Hp : exists d, parse_doc big_other (shadow_td false) = Some d /\ well_formed_b d = true).
+    { eexists. split; [vm_compute; reflexivity | vm_compute; reflexivity]. }
+    destruct Hp as (d & Hp & Hw). exists d. repeat split; auto. apply C04_digest_is_spec_parse; assumption.
+  - eexists. vm_compute. reflexivity.
+  - intros (a & Hwa & Hne). apply Hne. clear Hne.
+    assert (Hp : exists d, parse_doc big_other (shadow_td false) = Some d /\ well_formed_b d = true).
+    { eexists. split; [vm_compute; reflexivity | vm_compute; reflexivity]. }
+    destruct Hp as (d & Hp & Hw).
+    pose proof (parse_doc_represents _ _ _ Hp) as Hr.
+    unfold well_formed_b in Hw. apply andb_prop in Hw as [Hw _]. specialize (Hr Hw).
+    destruct Hr as ((_ & Ha) & _). apply Ha. exact Hwa.
+  - vm_compute. discriminate.
+Qed.
+Print Assumptions C04_atomic_name_guard_necessary.
